@@ -168,8 +168,10 @@ class Repo:
                     mods.get(rel) == hashlib.sha1(m.src.encode()).hexdigest():
                 continue
             others = [x.src for x in self.modules.values() if x is not m]
-            n += alpha.undo_extractions(m.tree, m.name, set(funcs[rel]),
-                                        others, base)
+            nested = base.get('__nested__', {}).get(rel)
+            n += alpha.undo_extractions(
+                m.tree, m.name, set(funcs[rel]), others, base,
+                set(nested) if nested is not None else None)
         return n
 
     def new_function_names(self) -> Dict[str, List[str]]:
